@@ -450,6 +450,33 @@ func (e *emitter) c15Conditions(t *translator, s *source) {
 	e.c15Lift(t, s, "Get: wrap-around of the search result", wrap, false, "exprGetWrap", []string{"idx", "n"}, wm)
 	e.c15Lift(t, s, "Get: position inside a collision bucket", c15Rem(get, 1), false, "exprGetInner", []string{"hv", "n"},
 		map[string]string{"innerIndex": "hv", "uint64(len(nodes))": "n"})
+	// Get: `switch len(nodes) { case 0: … case 1: … default: … }` — the tag and the case constants
+	{
+		tag, cases, hasDefault := "MISSING", []string{}, false
+		if get != nil {
+			ast.Inspect(get.Body, func(n ast.Node) bool {
+				if sw, ok := n.(*ast.SwitchStmt); ok && tag == "MISSING" {
+					tag = s.src(sw.Tag)
+					for _, c := range sw.Body.List {
+						cc := c.(*ast.CaseClause)
+						if cc.List == nil {
+							hasDefault = true
+						}
+						for _, v := range cc.List {
+							if cv, ok := s.eval(f, v); ok {
+								cases = append(cases, cv.ExactString())
+							} else {
+								cases = append(cases, "-999999999")
+							}
+						}
+					}
+				}
+				return true
+			})
+		}
+		e.printf("/-- tag of the switch in `Get` -/\ndef getSwitchTag : String := %s\n\n", leanString(tag))
+		e.printf("/-- case constants of the switch in `Get`, in order; default clause present: %v -/\ndef getSwitchCases : List Int := [%s]\ndef getSwitchHasDefault : Bool := %v\n\n", hasDefault, strings.Join(cases, ", "), hasDefault)
+	}
 	// Remove
 	e.c15Lift(t, s, "Remove: loop bound", c15ForCond(rem), true, "condRemoveLoop", []string{"i", "r"}, map[string]string{"h.replicas": "r"})
 	e.c15Lift(t, s, "Remove: search predicate", c15SearchPred(s, rem, 0), true, "condRemoveSearch", []string{"k", "x"}, map[string]string{"h.keys[i]": "k", "hash": "x"})
